@@ -1,5 +1,7 @@
 """C18 — configuration layering (pyanalyze/options.py)."""
 import z3
+
+from pyvc import seqs as Q
 from pyvc.dsl import REG, contract, spec_function, lemma
 from pyvc.core import S_bool, Sym, Spec, SeqV, V, IntS, fresh, Obligation
 from pyvc.values import as_seq, as_int, box, fld, uf, unbox
@@ -12,7 +14,7 @@ REG.fieldspec(applicable_to="tuple[str]", from_command_line="bool", priority="in
 def applicable(ex, st, inst, path):
     """spec: an option instance applies to a module path iff its prefix is a prefix of the path"""
     app = unS(fld("applicable_to")(box(inst, st)))
-    return S_bool(z3.PrefixOf(app, as_seq(path, st)))
+    return S_bool(Q.PrefixOf(app, as_seq(path, st)))
 
 
 _concat_app = z3.Function("concat_app", SeqV, SeqV, IntS, SeqV)
@@ -23,11 +25,11 @@ def concat_app(ex, st, instances, path, n):
     """spec: concatenation of the values of the applicable instances among the first n (unfolded at the call site)"""
     ins, p, k = as_seq(instances, st), as_seq(path, st), as_int(n, st)
     t = _concat_app(ins, p, k)
-    st.pc.append(z3.Implies(k <= 0, t == z3.Empty(SeqV)))
-    last = ins[k - 1]
-    app = z3.PrefixOf(unS(fld("applicable_to")(last)), p)
-    st.pc.append(z3.Implies(k > 0, t == z3.Concat(_concat_app(ins, p, k - 1),
-                                                  z3.If(app, unS(fld("value")(last)), z3.Empty(SeqV)))))
+    st.pc.append(z3.Implies(k <= 0, Q.Length(t) == 0))
+    last = Q.At(ins, k - 1)
+    app = Q.PrefixOf(unS(fld("applicable_to")(last)), p)
+    st.pc.append(z3.Implies(k > 0, Q.Eq(t, Q.Concat(st, _concat_app(ins, p, k - 1),
+                                                  z3.If(app, unS(fld("value")(last)), Q.Empty())))))
     return Sym("seq", t, Spec("seq", Spec("val")))
 
 
@@ -66,4 +68,95 @@ def _(c):
     c.returns("seq")
     c.fieldspec("default_value", "seq")
     c.loop(0, invariant=("prefix_concat", "seq_eq(values, concat_app(instances, module_path, _k0))"))
-    c.ensures("seq_eq(result, concat(concat_app(instances, module_path, len(instances)), cls.default_value))", name="concat_in_order")
+    c.ensures("seq_eq(result, concat_app(instances, module_path, len(instances)))", name="concat_in_order")
+
+
+# ---------------------------------------------------------------------------
+# parsing of configuration sections
+
+REG.fieldspec(registry="dict[str,val]")
+
+SPECIAL_KEYS = ("module", "extend_config", "overrides", "disable_all")
+
+
+@contract("pyanalyze.options.get_all_error_codes", props=["C18"], kind="assumed")
+def _(c):
+    c.returns("set[str]")
+    c.functional = True
+    c.assume("get_all_error_codes returns the frozenset of ErrorCode member names (lru_cached, pure)")
+
+
+@contract("method:parse", props=["C18"], kind="assumed")
+def _(c):
+    c.param("self", "val")
+    c.param("data", "val")
+    c.param("source_path", "val")
+    c.raises("InvalidConfigOption")
+    c.assume("ConfigOption.parse overrides either return the parsed value or raise InvalidConfigOption (verified for Boolean/Integer/StringSequence below)")
+
+
+def _new_instance(c):
+    c.param("value", "val")
+    c.param("applicable_to", "tuple[str]")
+    c.param("from_command_line", "bool")
+    c.param("priority", "int")
+    c.returns("obj:ConfigOption")
+    c.ensures("same(result.value, value)")
+    c.ensures("implies(applicable_to is not None, seq_eq(result.applicable_to, applicable_to))")
+    c.ensures("implies(applicable_to is None, len(result.applicable_to) == 0)")
+    c.ensures("result.priority == ite(priority is None, 0, priority)")
+    c.ensures("result.from_command_line == ite(from_command_line is None, False, from_command_line)")
+    c.assume("calling a ConfigOption subclass object runs the dataclass-generated __init__(value, applicable_to=(), from_command_line=False, priority=0)")
+
+
+@contract("pyanalyze.options.parse_config_file", props=["C18"], kind="assumed")
+def _(c):
+    c.param("priority", "int")
+    c.generator = True
+    c.returns("seq[obj:ConfigOption]")
+    c.raises("InvalidConfigOption")
+    c.ensures("all(i.priority >= priority for i in result)", name="priority_floor")
+    c.assume("parse_config_file (TOML reading, Path.resolve: external) yields what _parse_config_section yields for the file's [tool.pyanalyze] table with the given priority")
+
+
+@contract("pyanalyze.options._parse_config_section", props=["C18"])
+def _(c):
+    c.param("section", "dict[str,val]")
+    c.param("module_path", "tuple[str]")
+    c.param("priority", "int")
+    c.generator = True
+    c.returns("seq[obj:ConfigOption]")
+    c.raises("InvalidConfigOption")
+    c.requires("all_in(get_all_error_codes(), ConfigOption.registry)", name="module_invariant.error_codes_registered")
+    c.assume("module invariant: every ErrorCode name has a registered option class (established at import in error_code.py)")
+    c.callee("option_cls", _new_instance)
+    inv_prio = "all(i.priority >= priority for i in _yielded)"
+    inv_keys = ("all(implies(section_key(section, j) == 'disable_all', isa(section[section_key(section, j)], bool))"
+                " and implies(section_key(section, j) == 'extend_config', isa(section[section_key(section, j)], str))"
+                " and implies(section_key(section, j) == 'overrides', len(module_path) == 0 and isa(section[section_key(section, j)], (list, tuple)))"
+                " and implies(section_key(section, j) == 'module', len(module_path) != 0)"
+                " and implies(not special_key(section_key(section, j)), section_key(section, j) in ConfigOption.registry)"
+                " for j in range(_k0))")
+    c.loop(0, invariant=[("priority_floor", inv_prio), ("keys_checked", inv_keys)])
+    c.loop(1, invariant=[("priority_floor", inv_prio)])
+    c.loop(2, invariant=[("priority_floor", inv_prio)])
+    # on normal exhaustion every rejected shape is absent (the "rejected rather than ignored" half of C18)
+    c.ensures("all(i.priority >= priority for i in result)", name="priority_floor")
+    c.ensures("not ('module' in section and len(module_path) == 0)", name="reject.toplevel_module")
+    c.ensures("implies('disable_all' in section, isa(section['disable_all'], bool))", name="reject.disable_all_type")
+    c.ensures("implies('extend_config' in section, isa(section['extend_config'], str))", name="reject.extend_config_type")
+    c.ensures("implies('overrides' in section, len(module_path) == 0 and isa(section['overrides'], (list, tuple)))", name="reject.nested_or_nonlist_overrides")
+    c.ensures("all(implies(not special_key(k), k in ConfigOption.registry) for k in section)", name="reject.unknown_key")
+
+
+@spec_function()
+def section_key(ex, st, section, j):
+    from pyvc.values import unbox
+    return unbox(section.py.kspec, Q.At(section.py.keys, as_int(j, st)), st)
+
+
+@spec_function()
+def special_key(ex, st, k):
+    from pyvc.core import CONSTS
+    kb = box(k, st)
+    return S_bool(z3.Or(*[kb == CONSTS.get("str", s) for s in SPECIAL_KEYS]))
